@@ -11,6 +11,8 @@
 -/
 import FwdVerif.Lemmas.H2Credit
 import FwdVerif.Lemmas.H2Size
+import FwdVerif.Lemmas.H2Settings
+import FwdVerif.Lemmas.H2CreditRep
 
 namespace FwdVerif
 namespace C09
@@ -262,6 +264,116 @@ theorem c09_credit_only_for_data (d o : Dir α) (ord : Nat → List Nat) (op : O
   | goAway last code debug => rfl
   | unknown typ => rfl
 
+
+/-! ### SETTINGS frames that repeat an identifier (RFC 7540 §6.5.3) -/
+
+/-- **the last value wins**: the `ForeachSetting` loop walks the frame in order, so after it — for
+    every list, with any identifiers repeated any number of times, whatever the scans in between
+    release — the initial window size, the frame size limit and the table size of the direction are
+    the values of the LAST occurrence of their identifiers (what the endpoint that sent the frame,
+    and the one that gets it forwarded verbatim, have in force); applying the list or its
+    last-occurrence dedup (`lastOcc`, no identifier twice) makes no difference to them. -/
+theorem c09_settings_last_wins (o : Dir α) (ord ord' : Nat → List Nat) (k k' : Nat) (kvs : List (Nat × Nat)) :
+    (applySettings o ord k kvs).1.initWin = lastOfInt settingInitialWindowSize o.initWin kvs ∧
+    (applySettings o ord k kvs).1.maxFrame = lastOf settingMaxFrameSize o.maxFrame kvs ∧
+    (applySettings o ord k kvs).1.tableSize = lastOf settingHeaderTableSize o.tableSize kvs ∧
+    (applySettings o ord' k' (lastOcc kvs)).1.initWin = (applySettings o ord k kvs).1.initWin ∧
+    (applySettings o ord' k' (lastOcc kvs)).1.maxFrame = (applySettings o ord k kvs).1.maxFrame ∧
+    (applySettings o ord' k' (lastOcc kvs)).1.tableSize = (applySettings o ord k kvs).1.tableSize ∧
+    ((lastOcc kvs).map (·.1)).Nodup := by
+  have h := applySettings_cfg o ord k kvs
+  have h' := applySettings_cfg o ord' k' (lastOcc kvs)
+  refine ⟨h.1, h.2.1, h.2.2, ?_, ?_, ?_, lastOcc_nodup kvs⟩
+  · rw [h'.1, h.1, lastOfInt_lastOcc]
+  · rw [h'.2.1, h.2.1, lastOf_lastOcc]
+  · rw [h'.2.2, h.2.2, lastOf_lastOcc]
+
+/-- the same at the level of `processFrame`: a SETTINGS frame read from one endpoint leaves the
+    opposite direction (the one that sends TO that endpoint) with the last values, and is forwarded
+    verbatim — so relay and both endpoints agree on what is in force -/
+theorem c09_settings_frame_in_force (d o : Dir α) (ord : Nat → List Nat) (kvs : List (Nat × Nat)) :
+    (process d o ord (.settings kvs)).2.1.initWin = lastOfInt settingInitialWindowSize o.initWin kvs ∧
+    (process d o ord (.settings kvs)).2.1.maxFrame = lastOf settingMaxFrameSize o.maxFrame kvs ∧
+    (process d o ord (.settings kvs)).2.1.tableSize = lastOf settingHeaderTableSize o.tableSize kvs ∧
+    (process d o ord (.settings kvs)).2.2.fwdDirect = [.settings kvs] := by
+  have h := applySettings_cfg o ord 0 kvs
+  exact ⟨h.1, h.2.1, h.2.2, rfl⟩
+
+/-- the ledger identity after such a frame is the one with the last value: on every stream with a
+    buffer, `win = last value + Σ increments − sent` (bookkeeping holds across the frame) -/
+theorem c09_ledger_after_repeated_settings {o : Dir α} {L : Ledger} {H : Hist α} (h : Inv o L H) (ord : Nat → List Nat)
+    (kvs : List (Nat × Nat)) (s : Nat) (st : Stream α)
+    (hs : (applySettings o ord 0 kvs).1.streams.get s = some st) :
+    st.win = lastOfInt settingInitialWindowSize o.initWin kvs +
+      (L.addEmitted (applySettings o ord 0 kvs).2).inc s - (L.addEmitted (applySettings o ord 0 kvs).2).sent s := by
+  have hb := h.applySettings ord 0 kvs
+  have := hb.book.win s st hs
+  rw [(applySettings_cfg o ord 0 kvs).1] at this
+  exact this
+
+/-- **stream ledger across a frame that repeats SETTINGS_INITIAL_WINDOW_SIZE** (the case
+    `c09_stream_ledger` leaves out): the relay scans its queues after every value, so frames are
+    released under intermediate values; when no value of the frame exceeds the last one, every frame
+    released while the list is processed is within `last value + Σ increments` of its stream. -/
+theorem c09_stream_ledger_repeated_settings {o : Dir α} {L : Ledger} {H : Hist α} (h : Inv o L H)
+    (ord : Nat → List Nat) (kvs : List (Nat × Nat))
+    (hmax : initAllLe (lastOfInt settingInitialWindowSize o.initWin kvs) kvs) :
+    ∀ q ∈ (applySettings o ord 0 kvs).2,
+      (L.addEmitted (applySettings o ord 0 kvs).2).sent q.sid ≤
+        lastOfInt settingInitialWindowSize o.initWin kvs + (L.addEmitted (applySettings o ord 0 kvs).2).inc q.sid := by
+  intro q hq
+  obtain ⟨st, hs, hw⟩ := Released.applySettings_lastMax h.book ord 0 kvs hmax q hq
+  have := c09_ledger_after_repeated_settings h ord kvs q.sid st hs
+  omega
+
+/-- the statement without the hypothesis on the values:
+    every release is within the credit in force after the frame -/
+def c09_repeated_settings_full_statement : Prop :=
+  ∀ (o : Dir Unit) (L : Ledger) (H : Hist Unit), Inv o L H → ∀ (ord : Nat → List Nat) (kvs : List (Nat × Nat)),
+    ∀ q ∈ (applySettings o ord 0 kvs).2,
+      (L.addEmitted (applySettings o ord 0 kvs).2).sent q.sid ≤
+        lastOfInt settingInitialWindowSize o.initWin kvs + (L.addEmitted (applySettings o ord 0 kvs).2).inc q.sid
+
+/-- … and the hypothesis is needed for the code as it is: the receiver holds 40 octets back with
+    INITIAL_WINDOW_SIZE 0 and then sends `{INITIAL_WINDOW_SIZE=50, INITIAL_WINDOW_SIZE=0}` in ONE
+    frame; the scan after the first value releases the 40 octets although the value in force is 0
+    (`updateInitialWindowSize` calls `sendQueuedFramesUnderWindowSize` per value). -/
+theorem c09_repeated_settings_larger_intermediate_witness :
+    let evs : List (Ev Unit) :=
+      [⟨.server, fun _ => [], .settings [(4, 0)]⟩,
+       ⟨.client, fun _ => [], .data 1 (List.replicate 40 ()) none true⟩]
+    let r := (after evs).1
+    let x := r.step .server (fun _ => []) (.settings [(4, 50), (4, 0)])
+    ¬ initAllLe (lastOfInt settingInitialWindowSize r.cs.initWin [(4, 50), (4, 0)]) [(4, 50), (4, 0)] ∧
+    x.1.cs.initWin = 0 ∧
+    (x.2.back.flatMap QFrame.send).map Frame.payloadLen = [40] ∧
+    (x.1.cs.streams.get 1).map (·.win) = some (-40) := by
+  decide
+
+theorem c09_repeated_settings_full_statement_fails : ¬ c09_repeated_settings_full_statement := by
+  intro h
+  let evs : List (Ev Unit) :=
+      [⟨.server, fun _ => [], .settings [(4, 0)]⟩,
+       ⟨.client, fun _ => [], .data 1 (List.replicate 40 ()) none true⟩]
+  have hinv := ((RInv.init (α := Unit)).run evs).cs
+  have := h _ _ _ hinv (fun _ => []) [(4, 50), (4, 0)] (.data 1 true (List.replicate 40 ())) (by decide)
+  revert this
+  decide
+
+/-- witness for reading the frame through `SettingsFrame.Value` (first occurrence, fixed order;
+    numbers scaled down by 100): `{INITIAL_WINDOW_SIZE=655, MAX_CONCURRENT_STREAMS=100,
+    INITIAL_WINDOW_SIZE=30}` — defaults followed by an override.  In order the window in force is 30
+    and a 50-octet DATA frame waits; first-wins leaves 655 in force and the 50 octets go out on a
+    stream for which the endpoint granted 30. -/
+theorem c09_settings_first_wins_witness :
+    let kvs : List (Nat × Nat) := [(4, 655), (3, 100), (4, 30)]
+    let inOrder : Dir Unit := (applySettings ({} : Dir Unit) (fun _ => []) 0 kvs).1
+    let first : Dir Unit := (applySettingsFirst ({} : Dir Unit) (fun _ => []) kvs).1
+    inOrder.initWin = 30 ∧ lastOfInt settingInitialWindowSize 65535 kvs = 30 ∧ first.initWin = 655 ∧
+    ((inOrder.data 1 (List.replicate 50 ()) false).2.flatMap QFrame.send).map Frame.payloadLen = [] ∧
+    ((first.data 1 (List.replicate 50 ()) false).2.flatMap QFrame.send).map Frame.payloadLen = [50] := by
+  decide
+
 /-! ### non-vacuity -/
 
 /-- a schedule in which a stream window goes negative with data queued (initial window lowered
@@ -291,6 +403,15 @@ example :
        ⟨.server, fun _ => [], .windowUpdate 1 40⟩]
     (after (evs ++ sfx)).2.Lcs.total - (after evs).2.Lcs.total = 100 ∧
     (after evs).1.cs.connWin + ((after (evs ++ sfx)).2.Lcs.incConn - (after evs).2.Lcs.incConn) = 65542 := by
+  decide
+
+-- three identifiers repeated, two unknown ones in between: 4 → 70, 5 → 16384, 1 → 0
+example :
+    let kvs : List (Nat × Nat) := [(4, 65535), (5, 32768), (153, 7), (1, 4096), (4, 100), (5, 16384), (1, 0), (3, 9), (4, 70)]
+    lastOcc kvs = [(153, 7), (5, 16384), (1, 0), (3, 9), (4, 70)] ∧
+    ((applySettings ({} : Dir Unit) (fun _ => []) 0 kvs).1.initWin,
+     (applySettings ({} : Dir Unit) (fun _ => []) 0 kvs).1.maxFrame,
+     (applySettings ({} : Dir Unit) (fun _ => []) 0 kvs).1.tableSize) = (70, 16384, 0) := by
   decide
 
 example : simpleOp (Op.settings (α := Unit) [(5, 20000), (4, 70), (3, 9)]) := by
